@@ -213,3 +213,41 @@ Proof.
   rewrite !ret_app. f_equal. f_equal. cbn [Nat.add].
   rewrite (coin_pointwise (fun i b old => if b || (Z.of_nat i =? j) then nth i mutant 0 else old)). reflexivity.
 Qed.
+
+(* ---------- the property theorems, restated about the GENERATED definitions ---------- *)
+From TF Require Import BinaryOpsProofs.
+Open Scope Z_scope.
+
+Theorem src_one_point ps fitness rank ds child ds' :
+  valid_draws ds -> length (nth 1 ps []) = width ps ->
+  py_one_point_crossover ps fitness rank ds = Some (child, ds') ->
+  exists c coin, 0 <= c < Z.of_nat (width ps) /\ child = one_point_child ps c coin.
+Proof. intros Hv Hw H. rewrite code_one_point_crossover in H by auto. exact (one_point_sound ps ds child ds' Hv H). Qed.
+
+Theorem src_two_point ps fitness rank ds child ds' :
+  valid_draws ds -> length (nth 1 ps []) = width ps -> (2 <= width ps)%nat ->
+  py_two_point_crossover ps fitness rank ds = Some (child, ds') ->
+  exists c0 c1 coin, 0 <= c0 < c1 /\ c1 < Z.of_nat (width ps) /\ child = two_point_child ps c0 c1 coin.
+Proof. intros Hv Hw H2 H. rewrite code_two_point_crossover in H by auto. exact (two_point_sound ps ds child ds' Hv H). Qed.
+
+Theorem src_uniform ps fitness rank ds child ds' :
+  valid_draws ds -> length fitness = length ps ->
+  py_uniform_crossover ps fitness rank ds = Some (child, ds') ->
+  from_parents ps child /\ exists ch, length ch = width ps /\ child = from_choice ps ch.
+Proof. intros Hv Hl H. rewrite code_uniform_crossover in H by auto. exact (uniform_from_parents ps fitness rank ds child ds' Hv Hl H). Qed.
+
+Theorem src_flip_never_at_0 x p ds child ds' : valid_draws ds -> (p <= 0)%Q ->
+  py_flip_mutation x p ds = Some (child, ds') -> child = build (length x) (fun i => nth i x 0).
+Proof. intros Hv Hp H. rewrite code_flip_mutation in H. exact (flip_never_at_0 x p ds child ds' Hv Hp H). Qed.
+
+Theorem src_flip_always_at_1 x p ds child ds' : valid_draws ds -> (1 <= p)%Q ->
+  py_flip_mutation x p ds = Some (child, ds') -> child = build (length x) (fun i => 1 - nth i x 0).
+Proof. intros Hv Hp H. rewrite code_flip_mutation in H. exact (flip_always_at_1 x p ds child ds' Hv Hp H). Qed.
+
+Theorem src_binomialGA individ mutant CR ds child ds' :
+  valid_draws ds -> (0 < length individ)%nat ->
+  py_binomialGA individ mutant CR ds = Some (child, ds') ->
+  length child = length individ /\
+  exists j, (j < length individ)%nat /\ nth j child 0 = nth j mutant 0 /\
+    forall i, (i < length individ)%nat -> nth i child 0 = nth i mutant 0 \/ nth i child 0 = nth i individ 0.
+Proof. intros Hv Hl H. rewrite code_binomialGA in H. exact (binomial_at_least_one individ mutant CR ds child ds' Hv Hl H). Qed.
